@@ -103,6 +103,25 @@ class LexModel:
         self._g[f.name] = (pg, st)
         return pg, st
 
+    def room_for(self, f, node, base, k):
+        """is `base->pos + k < base->buffer + base->len` (k more bytes after the current one exist) a branch fact at node ?"""
+        from . import common as K
+        facts = K.facts_at(self.S, f, node) or []
+        sep = "->" if not base.endswith(")") else "->"
+        for atom, pol in facts:
+            if isinstance(pol, tuple) or atom.k != "BinaryOperator" or atom.get("op") not in ("<", "<=", ">", ">="):
+                continue
+            txt = atom.src.replace(" ", "").replace("(", "").replace(")", "")
+            for b_ in (base + "->", base + "."):
+                lhs = "%spos+%d" % (b_, k)
+                rhs = "%sbuffer+%slen" % (b_, b_)
+                if pol is True and txt in ("%s<%s" % (lhs, rhs), "%s>%s" % (rhs, lhs)):
+                    return True
+                lhs2 = "%spos+%d" % (b_, k + 1)
+                if pol is True and txt in ("%s<=%s" % (lhs2, rhs), "%s>=%s" % (rhs, lhs2)):
+                    return True
+        return False
+
     # ---- sites --------------------------------------------------------------------------
     def collect(self, f):
         """read / advance / retreat / jump / restore sites of f with their G verdict"""
@@ -118,8 +137,12 @@ class LexModel:
                 bm = base_of_member(inner) if inner.k == "MemberExpr" else None
                 if bm and bm[1] == "pos":
                     par = f.parent_of(n)
-                    # rvalue read (all uses in the lexer are reads)
-                    sites.append({"kind": "read", "node": n, "base": bm[0], "ok": bm[0] in g})
+                    # rvalue read (all uses in the lexer are reads); pos[k] with k > 0 is a look-ahead that needs its own room test
+                    k_ = C.const_of(n.child(1)) if n.k == "ArraySubscriptExpr" else 0
+                    if k_ in (0, None):
+                        sites.append({"kind": "read", "node": n, "base": bm[0], "ok": bm[0] in g and k_ == 0})
+                    else:
+                        sites.append({"kind": "read", "node": n, "base": bm[0], "ok": k_ > 0 and self.room_for(f, n, bm[0], k_)})
             elif n.k == "CallExpr" and n.get("callee") in self.raw:
                 for i in self.raw[n["callee"]]:
                     a = C.call_args(n)
@@ -144,6 +167,11 @@ class LexModel:
                         sites.append({"kind": "advance", "node": n, "base": bm[0], "ok": bm[0] in g})
                     elif n.k == "UnaryOperator" and n.get("op") == "--":
                         sites.append({"kind": "retreat", "node": n, "base": bm[0], "ok": None})
+                    elif n.get("op") == "+=" and (C.const_of(n.child(1)) or 0) >= 2:
+                        # advance over k characters that a look-ahead has examined
+                        k_ = C.const_of(n.child(1))
+                        sites.append({"kind": "advance", "node": n, "base": bm[0], "width": k_,
+                                      "ok": self.room_for(f, n, bm[0], k_ - 1)})
                     elif n.get("op") == "+=":
                         sites.append({"kind": "jump", "node": n, "base": bm[0], "ok": None})
                     elif n.get("op") == "=":
